@@ -2197,4 +2197,101 @@ example (w : String) (mf : Bool) (hm : (w, mf) ∈ graphWalks)
   obtain ⟨m, hv, _⟩ := C06_all_marked_walks w mf (by simp [markedWalks, hm]) u h hc marked e he
   exact ⟨m, hv⟩
 
+/-! ## marked walks: nothing reachable is left out -/
+
+/-- every node the walk marked itself has all its successors marked when the walk returns -/
+def WalkClosed (h : Hier) (marked m : List Nat) : Prop :=
+  ∀ x, x ∈ m → x ∉ marked → ∀ y, y ∈ h x → y ∈ m
+
+theorem visitSupers_closed (u : List Nat) (h : Hier) (hc : Closed u h) (fuel : Nat)
+    (IH : ∀ marked e m, e ∈ u → visit true h fuel marked e = some m → WalkClosed h marked m) :
+    ∀ (rest marked m : List Nat), (∀ y, y ∈ rest → y ∈ u) → visitSupers true h fuel marked rest = some m →
+      (∀ s, s ∈ rest → s ∈ m) ∧ (∀ x, x ∈ marked → x ∈ m) ∧ WalkClosed h marked m := by
+  intro rest
+  induction rest with
+  | nil =>
+    intro marked m _ hv
+    simp [visitSupers] at hv
+    subst hv
+    exact ⟨by simp, fun x hx => hx, fun x hx hn => absurd hx hn⟩
+  | cons s rest ih =>
+    intro marked m hu hv
+    by_cases hs : s ∈ marked
+    · simp [visitSupers, hs] at hv
+      obtain ⟨a, b, c⟩ := ih marked m (fun y hy => hu y (List.mem_cons_of_mem _ hy)) hv
+      refine ⟨fun t ht => ?_, b, c⟩
+      rcases List.mem_cons.mp ht with rfl | ht'
+      · exact b _ hs
+      · exact a t ht'
+    · simp only [visitSupers, hs, if_false] at hv
+      cases h1 : visit true h fuel marked s with
+      | none => simp [h1] at hv
+      | some m1 =>
+        simp only [h1] at hv
+        have hsu := hu s List.mem_cons_self
+        obtain ⟨sub1, smem, _⟩ := visit_sound u h hc fuel marked s m1 hsu h1
+        have c1 := IH marked s m1 hsu h1
+        obtain ⟨a, b, c⟩ := ih m1 m (fun y hy => hu y (List.mem_cons_of_mem _ hy)) hv
+        refine ⟨fun t ht => ?_, fun x hx => b x (sub1 x hx), fun x hx hn y hy => ?_⟩
+        · rcases List.mem_cons.mp ht with rfl | ht'
+          · exact b _ smem
+          · exact a t ht'
+        · by_cases hx1 : x ∈ m1
+          · exact b y (c1 x hx1 hn y hy)
+          · exact c x hx hx1 y hy
+
+theorem visit_closed (u : List Nat) (h : Hier) (hc : Closed u h) :
+    ∀ (fuel : Nat) (marked : List Nat) (e : Nat) (m : List Nat), e ∈ u → visit true h fuel marked e = some m →
+      WalkClosed h marked m := by
+  intro fuel
+  induction fuel with
+  | zero => intro marked e m _ hv; simp [visit] at hv
+  | succ fuel IH =>
+    intro marked e m he hv
+    simp only [visit, if_true] at hv
+    cases h1 : visitSupers true h fuel (e :: marked) (h e) with
+    | none => simp [h1] at hv
+    | some m1 =>
+      simp [h1] at hv
+      subst hv
+      obtain ⟨a, b, c⟩ := visitSupers_closed u h hc fuel IH (h e) (e :: marked) m1 (hc e he) h1
+      intro x hx hn y hy
+      by_cases hxe : x = e
+      · subst hxe; exact a y hy
+      · exact c x hx (by
+          intro hc'
+          rcases List.mem_cons.mp hc' with h2 | h2
+          · exact hxe h2
+          · exact hn h2) y hy
+
+/-- nodes reachable from `e` along successor edges -/
+inductive Reach (h : Hier) : Nat → Nat → Prop where
+  | refl (a : Nat) : Reach h a a
+  | step {a b c : Nat} : Reach h a b → c ∈ h b → Reach h a c
+
+/-- **C06, a marked walk leaves nothing out**: when a walk of the table starts with no marks, everything reachable from
+the start is marked when it returns (and, by `C06_marked_walks_terminate`, nothing else outside the old marks): each of
+the 11 functions sees every ancestor / member / schema exactly once — the property `ENTITYget_all_attributes` needs to
+return every inherited attribute once (C06-38), and the cyclicity checks need to find every cycle. -/
+theorem C06_marked_walks_complete (w : String) (mf : Bool) (hm : (w, mf) ∈ markedWalks)
+    (u : List Nat) (h : Hier) (hc : Closed u h) (e : Nat) (he : e ∈ u) :
+    ∃ m, visit mf h (u.length + 1) [] e = some m ∧ ∀ y, Reach h e y → y ∈ m := by
+  obtain ⟨m, hv, _, hem, _⟩ := C06_all_marked_walks w mf hm u h hc [] e he
+  have hmf : mf = true := List.all_eq_true.mp (by decide : markedWalks.all (fun p => p.2) = true) (w, mf) hm
+  subst hmf
+  have hcl := visit_closed u h hc (u.length + 1) [] e m he hv
+  refine ⟨m, hv, fun y hr => ?_⟩
+  induction hr with
+  | refl => exact hem
+  | step _ hcb ih => exact hcl _ ih (by simp) _ hcb
+
+/-- with earlier marks in place the walk still closes what it marks itself: a successor of a newly marked node is marked -/
+theorem C06_marked_walks_closed (w : String) (mf : Bool) (hm : (w, mf) ∈ markedWalks)
+    (u : List Nat) (h : Hier) (hc : Closed u h) (marked : List Nat) (e : Nat) (he : e ∈ u) :
+    ∃ m, visit mf h (u.length + 1) marked e = some m ∧ WalkClosed h marked m := by
+  obtain ⟨m, hv, _⟩ := C06_all_marked_walks w mf hm u h hc marked e he
+  have hmf : mf = true := List.all_eq_true.mp (by decide : markedWalks.all (fun p => p.2) = true) (w, mf) hm
+  subst hmf
+  exact ⟨m, hv, visit_closed u h hc (u.length + 1) marked e m he hv⟩
+
 end StepModel.C06
